@@ -772,10 +772,12 @@ func (fl *Flow) ExplorePathsMarked(keep func(k VarKey, f Fact) bool, mark func(e
 		if mark != nil {
 			if name := mark(it.e); name != "" {
 				out = out.clone()
-				if strings.HasPrefix(name, "-") {
-					delete(out, VarKey{Path: "mark:" + name[1:]})
-				} else {
-					out[VarKey{Path: "mark:" + name}] = Fact{Bool: 1}
+				for _, nm := range strings.Split(name, ",") {
+					if strings.HasPrefix(nm, "-") {
+						delete(out, VarKey{Path: "mark:" + nm[1:]})
+					} else if nm != "" {
+						out[VarKey{Path: "mark:" + nm}] = Fact{Bool: 1}
+					}
 				}
 			}
 		}
